@@ -50,6 +50,7 @@ def handlers : List (String × (Case → String)) := [
   ("nextret", Drivers.Cancel.runNextRet),
   ("ctxpair", Drivers.Cancel.runCtxPair),
   ("lateuse", Drivers.Cancel.runLateUse),
+  ("tdwait", Drivers.Cancel.runTdWait),
   ("timed", Drivers.Timed.run),
   ("plugin", Drivers.Plugin.run),
   ("resub", Drivers.Resub.run),
